@@ -24,7 +24,7 @@ members to typed unknowns true of the replaced part.
 import CtyModel.Props.C11
 import CtyModel.Lemmas.CoversWeaken
 import CtyModel.Lemmas.C12Funcs
-import CtyModel.Lemmas.d12bSort
+import CtyModel.Lemmas.d12bLookup
 namespace CtyModel
 namespace C12
 open Fn Std
@@ -469,8 +469,8 @@ theorem sound_keys (o w r : Value) (hk : o.whollyKnown = true) (hwf : Ty.wf w.ty
       hmw hmo (C12L.whollyKnown_isKnown hk) hc) hr
 
 /-- what `coalesce` needs of `convert.Convert` (a parameter of the model, `Env.convert`): converting a
-weakening (same type, known at the top) of a value succeeds when converting the value does, to a result of
-the same type that admits the concrete one (property C08 proves this of the conversion model) -/
+weakening (same type) of a value succeeds when converting the value does, to a result of the same type that
+admits the concrete one (what property C08 states of the conversion model) -/
 def EnvConvertSound := D12b.EnvConvertSound
 /-- every weakened argument has the type of the argument it weakens -/
 def TyKeptS := D12b.TyKeptS
@@ -631,6 +631,102 @@ theorem sound_sort (E : Stdlib.Env) (o w r : Value) (hlt : o.ty = .list .string)
     (fun hp _ => D12b.sort_implSound E o w hlt (D12b.ty_kept_of_passes_nodyn (spec := Stdlib.sortSpec) rfl hp hty)
       hk hmw hmo hs hfo hc) hr
 
+/-- the full-strength statement for `setproduct` — FALSE of the code (recorded finding
+`result-not-covered:length-lower-bound-excludes-result:SetProductFunc`) -/
+def SoundSetProduct : Prop :=
+  ∀ (E : Stdlib.Env) (os ws : List Value) (r : Value), (∀ a ∈ os, a.whollyKnown = true) →
+    (∀ a ∈ os, a.containsMarked = false) → (∀ a ∈ ws, a.containsMarked = false) → coversAll ws os = true → TyKeptS ws os →
+    (callUnrefined Stdlib.setProductSpec (Stdlib.setProductType E) (Stdlib.setProductImpl E) os).1 = .ok r →
+    ∃ r', (callUnrefined Stdlib.setProductSpec (Stdlib.setProductType E) (Stdlib.setProductImpl E) ws).1 = .ok r' ∧ Covers r' r = true
+
+def spOs : List Value := [⟨.set .number, .sset [1] [.n (.fin false 1 0 64)]⟩, ⟨.set .bool, .sset [] []⟩]
+def spWs : List Value := [⟨.set .number, .unk (.coll .f 1 1)⟩, ⟨.set .bool, .unk (.coll .f 0 2)⟩]
+
+/-- `setproduct({1}, {})` is the empty set; with both sets unknown (1 member; 0 to 2 members) the answer is an
+unknown set refined `CollectionLengthLowerBound(1)`: the second set may be empty, the bound is wrong -/
+theorem sound_setproduct_counterexample :
+    (∀ a ∈ spOs, a.whollyKnown = true) ∧ coversAll spWs spOs = true ∧ TyKeptS spWs spOs ∧
+    (callUnrefined Stdlib.setProductSpec (Stdlib.setProductType {}) (Stdlib.setProductImpl {}) spOs).1 =
+      .ok ⟨.set (.tuple [.number, .bool]), .sset [] []⟩ ∧
+    (callUnrefined Stdlib.setProductSpec (Stdlib.setProductType {}) (Stdlib.setProductImpl {}) spWs).1 =
+      .ok ⟨.set (.tuple [.number, .bool]), .unk (.coll .u 1 2)⟩ ∧
+    Covers ⟨.set (.tuple [.number, .bool]), .unk (.coll .u 1 2)⟩ ⟨.set (.tuple [.number, .bool]), .sset [] []⟩ = false :=
+  ⟨by decide, by decide, ⟨rfl, rfl, trivial⟩, by rfl, by rfl, by decide⟩
+
+theorem soundSetProduct_false : ¬ SoundSetProduct := by
+  intro h
+  obtain ⟨h1, h2, h3, h4, h5, h6⟩ := sound_setproduct_counterexample
+  obtain ⟨r', hr', hc⟩ := h {} spOs spWs _ h1 (by decide) (by decide) h2 h3 h4
+  rw [h5] at hr'
+  cases hr'
+  rw [h6] at hc
+  cases hc
+
+/-- **`lookup(map, key, default)`**, `_partial`: the first argument is a MAP (for an object the `Type` callback
+reads the attribute's type off `GetAttr` of the VALUE: searched).  A map that is not wholly known — an element
+value unknown — gives the unknown of the element type; a wholly known weakening is the map itself; the
+default, weakened or not, is returned (converted: `EnvConvertSound`) only when the key is absent. -/
+theorem sound_lookup_map_partial (E : Stdlib.Env) (hE : EnvConvertSound E) (om wm ok wk od wd r : Value) (e : Ty)
+    (hm : om.ty = .map e) (hwfe : Ty.wf e = true)
+    (hkm : om.whollyKnown = true) (hkk : ok.whollyKnown = true) (hkd : od.whollyKnown = true)
+    (hmom : om.containsMarked = false) (hmwm : wm.containsMarked = false)
+    (hmok : ok.containsMarked = false) (hmwk : wk.containsMarked = false)
+    (hmod : od.containsMarked = false) (hmwd : wd.containsMarked = false)
+    (hleaf : ok.v.isLeaf = true) (hs : D12b.noSet wm.v = true)
+    (htm : wm.ty = om.ty ∨ wm.ty.isDyn = true) (htk : wk.ty = ok.ty ∨ wk.ty.isDyn = true)
+    (htd : wd.ty = od.ty ∨ wd.ty.isDyn = true)
+    (hcm : CoversX wm om = true) (hck : CoversX wk ok = true) (hcd : CoversX wd od = true)
+    (hrwf : Ty.wf r.ty = true) (hrefl : Covers r r = true)
+    (hr : (callUnrefined Stdlib.lookupSpec (Stdlib.lookupType E) (Stdlib.lookupImpl E) [om, ok, od]).1 = .ok r) :
+    ∃ r', (callUnrefined Stdlib.lookupSpec (Stdlib.lookupType E) (Stdlib.lookupImpl E) [wm, wk, wd]).1 = .ok r' ∧
+      Covers r' r = true := by
+  have hkept : Passes Stdlib.lookupSpec [wm, wk, wd] → wm.ty = om.ty ∧ wk.ty = ok.ty ∧ wd.ty = od.ty := by
+    intro hp
+    obtain ⟨h1, h2, h3, _⟩ := D12b.firstFail_none_tyKeptS _ [wm, wk, wd] [om, ok, od] hp rfl
+      (by intro p hp; simp [Stdlib.lookupSpec, Spec.expand] at hp; rcases hp with rfl | rfl | rfl <;> rfl)
+      ⟨htm, htk, htd, trivial⟩
+    exact ⟨h1, h2, h3⟩
+  have hknown : ReachesImpl Stdlib.lookupSpec [wm, wk, wd] → wm.isKnown = true ∧ wk.isKnown = true ∧ wd.isKnown = true := by
+    intro hri
+    have := D12b.pass2_all_known _ [wm, wk, wd] hri rfl
+      (by intro p hp; simp [Stdlib.lookupSpec, Spec.expand] at hp; rcases hp with rfl | rfl | rfl <;> rfl)
+    exact ⟨this wm (by simp), this wk (by simp), this wd (by simp)⟩
+  refine impl_soundness_lifts_to_call _ _ _ [om, ok, od] [wm, wk, wd] r ?_ ?_
+    (by intro a ha; simp at ha; rcases ha with rfl | rfl | rfl <;> exact C12L.whollyKnown_isKnown (by assumption))
+    (by intro a ha; simp at ha; rcases ha with rfl | rfl | rfl <;> assumption)
+    (by intro a ha; simp at ha; rcases ha with rfl | rfl | rfl <;> assumption)
+    (by simp [coversAll, hcm, hck, hcd]) ⟨htm, htk, htd, trivial⟩ hrwf hrefl ?_ hr
+  · -- the `Type` callback: the element type, whatever the (possibly unknown) key and default are
+    intro hp
+    obtain ⟨h1, _, h3⟩ := hkept hp
+    intro t ht
+    rw [D12b.lookupType_map E hm] at ht
+    rw [D12b.lookupType_map E (h1.trans hm)]
+    cases hcv : Stdlib.convertTo E od e with
+    | ok c =>
+      rw [hcv] at ht
+      simp only [Res.ok.injEq] at ht
+      subst ht
+      obtain ⟨c', hc', _, _⟩ := D12b.convertTo_sound E hE e h3 hcd hcv
+      rw [hc']
+      exact ⟨e, rfl, fun _ hc => hc⟩
+    | err c => rw [hcv] at ht; cases ht
+    | panic c => rw [hcv] at ht; simp [Stdlib.Res.cast] at ht
+    | unmodelled => rw [hcv] at ht; simp [Stdlib.Res.cast] at ht
+  · intro t ht
+    rcases htm with h | h
+    · rw [D12b.lookupType_map E (h.trans hm)] at ht
+      cases hcv : Stdlib.convertTo E wd e <;> rw [hcv] at ht <;> simp [Stdlib.Res.cast] at ht
+      rw [← ht]; exact hwfe
+    · have : wm.ty = .dyn := by cases hw : wm.ty <;> simp_all [Ty.isDyn]
+      simp [Stdlib.lookupType, this] at ht
+  · intro hp hri
+    obtain ⟨h1, h2, h3⟩ := hkept hp
+    obtain ⟨_, hk2, _⟩ := hknown hri
+    have := D12b.leaf_eq hmwk hmok h2 hck hk2 hleaf
+    subst this
+    exact D12b.lookup_map_implSound E hE om wm wk od wd hm h1 h3 hmom hmwm hmwk hs hcm hcd
+
 /-! ### the hypotheses are satisfiable -/
 
 example : TypeMonoW (C11.staticType (.list .string)) := static_typeMonoW _
@@ -748,10 +844,10 @@ example : ∃ r', (callUnrefined Stdlib.reverseSpec Stdlib.reverseType (Stdlib.r
 
 /-- the conversion law holds of an environment that converts nothing (`coalesce` of arguments of one type
 never converts) -/
-example : EnvConvertSound {} := by intro o w t r _ _ _ h; cases h
+example : EnvConvertSound {} := by intro o w t r _ _ h; cases h
 example : ∃ r', (callUnrefined Stdlib.coalesceSpec (Stdlib.coalesceType { unify := fun ts => .ok ts.head? })
       (Stdlib.coalesceImpl { unify := fun ts => .ok ts.head? }) [⟨.list .string, .null⟩, exLw]).1 = .ok r' ∧ Covers r' exL = true :=
-  sound_coalesce { unify := fun ts => .ok ts.head? } (by intro o w t r _ _ _ h; cases h)
+  sound_coalesce { unify := fun ts => .ok ts.head? } (by intro o w t r _ _ h; cases h)
     [⟨.list .string, .null⟩, exL] [⟨.list .string, .null⟩, exLw] exL (by decide) (by decide) (by decide)
     (by intro t h; cases h; rfl) (by decide) ⟨rfl, rfl, trivial⟩ (by decide) (by decide) (by rfl)
 
@@ -797,6 +893,20 @@ example : ∃ r', (callUnrefined Stdlib.sortSpec Stdlib.sortType (Stdlib.sortImp
     Covers r' ⟨.list .string, .seq [.s "a"]⟩ = true :=
   sound_sort {} ⟨.list .string, .seq [.s "a"]⟩ ⟨.list .string, .seq [.unk .unref]⟩ ⟨.list .string, .seq [.s "a"]⟩ rfl (by decide)
     (by decide) (by decide) (by decide) (by decide) (Or.inl rfl) (by decide) (by decide) (by decide) (by rfl)
+
+/-- `lookup({k = 1, l = 2}, "k", 0)` with the value at `k` unknown: the unknown number; and with an unknown default -/
+example : ∃ r', (callUnrefined Stdlib.lookupSpec (Stdlib.lookupType {}) (Stdlib.lookupImpl {})
+      [exMw, ⟨.string, .s "k"⟩, Value.intVal 0]).1 = .ok r' ∧ Covers r' ⟨.number, .n (.fin false 1 0 64)⟩ = true :=
+  sound_lookup_map_partial {} (by intro o w t r _ _ h; cases h) exM exMw ⟨.string, .s "k"⟩ ⟨.string, .s "k"⟩ (Value.intVal 0)
+    (Value.intVal 0) ⟨.number, .n (.fin false 1 0 64)⟩ .number rfl rfl (by decide) (by decide) (by decide) (by decide) (by decide)
+    (by decide) (by decide) (by decide) (by decide) (by decide) (by decide) (Or.inl rfl) (Or.inl rfl) (Or.inl rfl)
+    (by decide) (by decide) (by decide) (by decide) (by decide) (by rfl)
+example : ∃ r', (callUnrefined Stdlib.lookupSpec (Stdlib.lookupType {}) (Stdlib.lookupImpl {})
+      [exM, ⟨.string, .s "k"⟩, Value.unknown .number]).1 = .ok r' ∧ Covers r' ⟨.number, .n (.fin false 1 0 64)⟩ = true :=
+  sound_lookup_map_partial {} (by intro o w t r _ _ h; cases h) exM exM ⟨.string, .s "k"⟩ ⟨.string, .s "k"⟩ (Value.intVal 0)
+    (Value.unknown .number) ⟨.number, .n (.fin false 1 0 64)⟩ .number rfl rfl (by decide) (by decide) (by decide) (by decide) (by decide)
+    (by decide) (by decide) (by decide) (by decide) (by decide) (by decide) (Or.inl rfl) (Or.inl rfl) (Or.inl rfl)
+    (by decide) (by decide) (by decide) (by decide) (by decide) (by rfl)
 
 end C12
 end CtyModel
